@@ -636,7 +636,9 @@ static int run_case(const uint8_t *data, size_t size, int prop) {
   const int NOP = 32;
   int maxops = (int)verif_param("maxops", 40);
   for (int step = 0; step < maxops && !w.cap_hit; step++) {
-    int op = s.below(NOP);
+    // an "already connecting" socket (addr == NULL) must be declared as such before it is used for I/O: connect first
+    bool force_connect = cm == CM_PRECONNECTED && step == 0;
+    int op = force_connect ? 1 : s.below(NOP);
     if (op == 0) break;
     End &e = w.e[s.below(2)];
     // op table: weights differ per property
@@ -644,7 +646,7 @@ static int run_case(const uint8_t *data, size_t size, int prop) {
     static const uint8_t T17[NOP] = {0, O_WRITE, O_WRITE, O_WRITE, O_WRITE, O_WRITE, O_WRITE, O_WRITE, O_TURN, O_TURN, O_TURN, O_TURN, O_TURN, O_TURN, O_READ, O_READ, O_READ, O_ENABLE, O_ENABLE, O_DISABLE, O_DISABLE, O_WM, O_FLUSH, O_FLUSH, O_SHUT, O_FREE, O_FAULT, O_FAULT, O_FAULT, O_SETCB, O_CLRFAULT, O_UWM};
     static const uint8_t T18[NOP] = {0, O_WRITE, O_WRITE, O_WRITE, O_WRITE, O_WRITE, O_WRITE, O_TURN, O_TURN, O_TURN, O_TURN, O_TURN, O_TURN, O_READ, O_READ, O_READ, O_READ, O_READ, O_ENABLE, O_ENABLE, O_DISABLE, O_WM, O_WM, O_WM, O_WM, O_WM, O_FLUSH, O_UWM, O_UWM, O_SHUT, O_FREE, O_FAULT};
     static const uint8_t T19[NOP] = {0, O_WRITE, O_WRITE, O_WRITE, O_WRITE, O_WRITE, O_TURN, O_TURN, O_TURN, O_TURN, O_TURN, O_TURN, O_READ, O_READ, O_ENABLE, O_ENABLE, O_DISABLE, O_WM, O_FLUSH, O_SHUT, O_SHUT, O_FREE, O_FREE, O_FAULT, O_FAULT, O_SETCB, O_SETCB, O_SETCB, O_CONNECT, O_CONNECT, O_CONNECT, O_CONNECT};
-    int o = (prop == 17 ? T17 : prop == 18 ? T18 : T19)[op];
+    int o = force_connect ? (int)O_CONNECT : (prop == 17 ? T17 : prop == 18 ? T18 : T19)[op];
     if (o == O_TURN) { do_turn(s.below(3) == 1 ? EVLOOP_ONCE : EVLOOP_NONBLOCK, "op"); post_op("turn"); continue; }
     if (o == O_CONNECT) {
       End &a = w.e[0];
